@@ -156,6 +156,11 @@ def iterative(rep):
     conts = [n for n in ol.body if isinstance(n, ast.If) and any(isinstance(x, ast.Continue) for x in n.body)]
     vm = pmatch(f"{i} in $visited", conts[0].test) if len(conts) == 1 else None
     allc = [n for n in walk_local(ol) if isinstance(n, (ast.Continue, ast.Break)) and not enclosing_loops(pm, n, ol)]  # exits of the outer loop itself
+    # leaving the loop once every item has a class (`len(visited) == len(rules)`) skips nothing: the remaining rounds would all hit the "already classified" test
+    if vm is not None:
+        done_ = [n for n in allc if isinstance(n, ast.Break) and any(sn and (pmatch(f"len({vm['visited']}) == len($r)", t) is not None or pmatch(f"len($r) == len({vm['visited']})", t) is not None)
+                                                                      for t, sn in guards_of(pm, n, ol))]
+        allc = [n for n in allc if n not in done_]
     rep.ob("O13.2", "R6b", fi, vm is not None and len(allc) == 1, [norm(c.test) for c in conts], "an item is skipped only if it already belongs to a class")
     if vm is None:
         return
@@ -190,8 +195,19 @@ def iterative(rep):
         flat = [cj for t in gs for cj in conjunct_nodes(t)]
         flags = [t.id for t in flat if isinstance(t, ast.Name)]
         iso_flag = flags[0] if len(flags) == 1 else None
-        ok = iso_flag is not None and any(pmatch(f"{j} not in {V}", t) is not None for t in flat) and \
-            any(pmatch(f"$a[{i}] == $a[{j}]", t) is not None or pmatch(f"$a[{j}] == $a[{i}]", t) is not None for t in flat)
+        def _same_attr(t):
+            if pmatch(f"$a[{i}] == $a[{j}]", t) is not None or pmatch(f"$a[{j}] == $a[{i}]", t) is not None:
+                return True
+            # `not <pre-filter in use> or a[i] == a[j]`: without a pre-grouping attribute the comparison is skipped, with one it is made
+            if isinstance(t, ast.BoolOp) and isinstance(t.op, ast.Or) and len(t.values) == 2 and any(_same_attr(v) for v in t.values):
+                other = [v for v in t.values if not _same_attr(v)][0]
+                neg = isinstance(other, ast.UnaryOp) and isinstance(other.op, ast.Not)
+                flag = other.operand if neg else other
+                src = origin(d_ic, flag) if isinstance(flag, ast.Name) else flag
+                return neg and pmatch("$p is not None", src) is not None or (not neg and pmatch("$p is None", src) is not None)
+            return False
+        d_ic = local_defs(fi.node)
+        ok = iso_flag is not None and any(pmatch(f"{j} not in {V}", t) is not None for t in flat) and any(_same_attr(t) for t in flat)
         rep.ob("O13.2", "R6b", fi, ok, f"visited.add({j}) under {[norm(t) for t in flat]}", "an item joins a class iff it is unclassified, has the same pre-grouping attribute and is isomorphic to the representative", node=ja[0])
     iso = [leaf for x in d.get(iso_flag or "", []) if x.kind == "assign" for leaf in if_leaves(x.value)]
     ok = bool(iso) and all(isinstance(x, ast.Call) and [norm(a) for a in x.args[:2]] == [ri, rj] for x in iso)
